@@ -274,6 +274,8 @@ def gen_game(rng, kind=None, stratum=None, ties=None, n=None, maxsize=8, encode=
                 teams[rng.randrange(len(teams))].append(tw)
     else:
         teams = gen_teams(rng, stratum, beta, n=n, maxsize=maxsize)
+    if n is not None and len(teams) != n and stratum != "bigsum":
+        teams = gen_teams(rng, "typical", beta, n=n, maxsize=maxsize)       # a caller that fixes the number of teams gets that number
     n = len(teams)
     r = rng.random()
     form = "RRSRSNR"[cyc % 7]
